@@ -6,7 +6,9 @@ RULE = ("one evaluation = one call of Trace/Debug/Info/Warn/Error on a real Simp
         "capturing slog.Handler) or NoOpLogger, written as one protocol line: 5 levels x thresholds {-9..13, the six constants, +-10^6} x 0..5 string arguments "
         "(plus ints / nil / errors / Stringers in key and value position, handed to the model in rendered form); the exact bytes written resp. the captured "
         "record (level, message, attributes in order) are compared with the Lean model (level 1) and judged independently (level 2): written iff level >= "
-        "threshold, nothing at LevelOff, line = own prefix + msg=<msg> + arguments in order + one line end. Property-level concurrency judgment (not a "
+        "threshold, nothing at LevelOff, line = own prefix + msg=<msg> + arguments in order + one line end. Sequential histories on ONE *log.Logger shared by three SimpleLoggers "
+        "(different thresholds) and its owner (SetPrefix / Print in between; every pair of levels a.X; c.Y; a.X and 150 seeded histories): the bytes appended by "
+        "every SimpleLogger call are exactly its record under its own level's label, or nothing below its threshold. Property-level concurrency judgment (not a "
         "differential): 16 goroutines x 5000 self-describing records on ONE SimpleLogger (thresholds Trace and Info) and ONE SlogLogger: every captured line's "
         "label equals the level named in its own text, exactly the enabled records appear, once each, per-goroutine order kept. "
         "non-trivial = every evaluation; distinct by protocol line")
